@@ -35,7 +35,9 @@ pub const SPEC: PropSpec = PropSpec {
         ("c01.cases_with_two_links_carrying_data", 20, 600),
         ("fault.black_hole", 50, 1_500),
         ("fault.socket_send_error_armed", 20, 600),
-        ("sim.short_send_sessions", 8, 250),
+        ("sim.short_send_sessions", 6, 180),
+        ("c01.collapsed_window_cases", 2, 120),
+        ("c01.arms_with_every_usable_link_at_score_zero", 1_000, 30_000),
         ("c01.short_send.flushes_over_4_datagrams", 200, 6_000),
         ("live.sessions.timing_reliable", 6, 48),
         ("live.C01.completeness_checked", 4, 40),
@@ -64,7 +66,19 @@ pub fn run_case(rng: &mut crate::prng::Rng, rep: &mut Report) {
         1 => Faults::Paths,
         _ => Faults::Heavy,
     };
-    let opts = StreamOpts { n_links, cfg: sc, ticks: 4000 + rng.usize_below(4000), probing: rng.chance(1, 2), faults, retransmit_pct: rng.below(15), control_pct: 4, critical_windows: rng.chance(1, 2), big_jumps: rng.chance(1, 3), initial_windows: None, loss_permille: *rng.pick(&[0, 0, 5, 30]), stall_min_in_flight_small: true, echo_fuzz: false, rate_pct: 100, short_sends: rng.chance(1, 4) };
+    let mut opts = StreamOpts { n_links, cfg: sc, ticks: 4000 + rng.usize_below(4000), probing: rng.chance(1, 2), faults, retransmit_pct: rng.below(15), control_pct: 4, critical_windows: rng.chance(1, 2), big_jumps: rng.chance(1, 3), initial_windows: None, loss_permille: *rng.pick(&[0, 0, 5, 30]), stall_min_in_flight_small: true, echo_fuzz: false, rate_pct: 100, short_sends: rng.chance(1, 4) };
+    // One case in six (added after seeded defect C01e): windows collapsed to the floor and a receiver that stays
+    // alive (keepalive echoes) but acknowledges nothing, at three times the packet rate, so that the un-ACKed
+    // backlog of every uplink reaches its window and every score floors to 0 - the uplinks are still usable and
+    // every datagram must still be transmitted.
+    if rng.chance(1, 6) {
+        opts.initial_windows = Some((0..n_links).map(|_| 1000 + rng.below(40) as i32).collect());
+        opts.loss_permille = 1000;
+        opts.faults = Faults::None;
+        opts.rate_pct = 300;
+        opts.short_sends = false;
+        rep.count("c01.collapsed_window_cases");
+    }
     let want_sample = rep.wants_sample();
     let desc = format!("{opts:?}");
     let mut m = DeliveryMon::new(timeout);
